@@ -36,6 +36,20 @@ impl Error {
     pub fn code(&self) -> u32 {
         self.0
     }
+    pub fn get_code(&self) -> u32 {
+        self.0
+    }
+    pub fn is_type(&self, _t: xdr::ScErrorType) -> bool {
+        nondet()
+    }
+}
+
+#[derive(Clone, Copy, Debug, PartialEq, Eq)]
+pub struct ConversionError;
+#[derive(Clone, Copy, Debug, PartialEq, Eq)]
+pub enum InvokeError {
+    Abort,
+    Contract(u32),
 }
 
 /// The real trait converts to a host value; the shim additionally exposes the word encoding.
@@ -105,6 +119,25 @@ pub mod unwrap {
 /// migration data).
 #[derive(Clone, Copy, Debug, PartialEq, Eq)]
 pub struct Val(pub u64);
+macro_rules! val_from {
+    ($($t:ty => $tag:expr),*) => {$(
+        /// small scalars convert to host values: an injective uninterpreted embedding
+        impl From<$t> for Val {
+            fn from(x: $t) -> Val {
+                let mut w = Words::new();
+                w.push(0x7A1_0000 + $tag);
+                w.push(x as u64);
+                Val(intern(w))
+            }
+        }
+    )*};
+}
+val_from!(u32 => 1, i32 => 2, bool => 3);
+impl From<()> for Val {
+    fn from(_: ()) -> Val {
+        Val(0)
+    }
+}
 impl Wordy for Val {
     const NW: usize = 1;
     fn to_words(&self, out: &mut Words) {
@@ -335,6 +368,30 @@ impl Bytes {
         w.push(end as u64);
         Bytes { id: intern(w) }
     }
+    /// content in a fixed stack buffer: traps if it does not fit; abstract content is handed out like
+    /// `to_alloc_vec` does (identity parked for a contract stub, never silently "empty" for real code)
+    pub fn to_buffer<const N: usize>(&self) -> BytesBuffer<N> {
+        if self.len() as usize > N {
+            trap();
+        }
+        let v = self.to_alloc_vec();
+        let mut buf = [0u8; N];
+        let mut i = 0;
+        while i < v.len() && i < N {
+            buf[i] = v[i];
+            i += 1;
+        }
+        BytesBuffer { buf, len: v.len() }
+    }
+    pub fn get(&self, i: u32) -> Option<u8> {
+        if i >= self.len() {
+            return None;
+        }
+        if self.id != EMPTY_ID && has_content(self.id) {
+            return content_of(self.id).get(i as usize).copied();
+        }
+        harness_bug("Bytes content is abstract: stub the caller by its contract")
+    }
     pub fn append(&mut self, other: &Bytes) {
         if other.id == EMPTY_ID {
             return;
@@ -368,6 +425,15 @@ impl Bytes {
             unsafe { ABSTRACT_CONTENT_TAKEN = Some(self.id) };
             std::vec::Vec::new()
         }
+    }
+}
+pub struct BytesBuffer<const N: usize> {
+    buf: [u8; N],
+    len: usize,
+}
+impl<const N: usize> BytesBuffer<N> {
+    pub fn as_slice(&self) -> &[u8] {
+        &self.buf[..self.len]
     }
 }
 impl Wordy for Bytes {
@@ -534,6 +600,17 @@ impl<T: Clone> Vec<T> {
         self.concrete();
         VecIter { items: self.items.clone(), i: 0, n: self.n }
     }
+    pub fn first(&self) -> Option<T> {
+        self.get(0)
+    }
+    pub fn last(&self) -> Option<T> {
+        self.concrete();
+        if self.n == 0 {
+            None
+        } else {
+            self.items[self.n - 1].clone()
+        }
+    }
 }
 impl<T> IntoIterator for Vec<T> {
     type Item = T;
@@ -604,6 +681,16 @@ impl Env {
     /// A failing callee traps the caller (axiom A-CALL), so only the successful return is modelled.
     pub fn invoke_contract<T: Wordy>(&self, contract: &Address, func: &Symbol, args: Vec<Val>) -> T {
         invoke_id::<T>(contract, func.0, Words::of(&args))
+    }
+    /// The non-trapping variant (the callee's failure is handed back): logged under a different
+    /// function identity than `invoke_contract`, outcome nondeterministic.
+    pub fn try_invoke_contract<T: Wordy, E>(&self, contract: &Address, func: &Symbol, args: Vec<Val>) -> Result<Result<T, ConversionError>, Result<E, InvokeError>> {
+        let r = invoke_id::<T>(contract, func.0 ^ 0x7472_795f_0000_0000, Words::of(&args));
+        if nondet::<bool>() {
+            Ok(Ok(r))
+        } else {
+            Err(Err(InvokeError::Abort))
+        }
     }
 }
 impl Storage {
@@ -717,6 +804,19 @@ pub mod crypto {
 
 pub mod xdr {
     use super::*;
+    #[derive(Clone, Copy, Debug, PartialEq, Eq)]
+    pub enum ScErrorType {
+        Contract,
+        WasmVm,
+        Context,
+        Storage,
+        Object,
+        Crypto,
+        Events,
+        Budget,
+        Value,
+        Auth,
+    }
     pub trait ToXdr {
         fn to_xdr(self, e: &Env) -> Bytes;
     }
